@@ -46,7 +46,9 @@ class Formula(object):
 
         def err_msg(phi):
             return ('expected a {}, '.format(FormulaClass.__desc__) +
-                    'got the {} {}'.format(phi.__desc__, phi))
+                    'got the {} {}'.format(getattr(phi, '__desc__',
+                                                     type(phi).__name__),
+                                             phi))
 
         Lang = sys.modules[self.__module__]
 
